@@ -476,7 +476,7 @@ class Module:
 
 
 class Repo:
-    def __init__(self, root: Optional[str] = None, with_clients: bool = False):
+    def __init__(self, root: Optional[str] = None, with_clients=False):
         self.root = os.path.abspath(root or repo_root())
         self.modules: Dict[str, Module] = {}
         pkgdir = os.path.join(self.root, "src", PKG)
@@ -489,7 +489,8 @@ class Repo:
                 self.modules[full] = Module(self, full, os.path.join(pkgdir, fn), "package")
         self.clients: Dict[str, Module] = {}
         if with_clients:
-            for d in ("demos", "examples", "test"):
+            dirs = ("demos", "examples", "test") if with_clients is True or with_clients == "all" else tuple(with_clients)
+            for d in dirs:
                 dd = os.path.join(self.root, d)
                 if not os.path.isdir(dd):
                     continue
